@@ -1507,6 +1507,22 @@ Plan gen_C06(std::uint64_t seed, int tier) {
     Gen g(seed ^ 0x0DE5, tier);
     g.p = p;
     int k = tier ? 8 : 3;
+    if (p.events[0].recs.size() <= 5) {
+        // small registry: every registration order (definitions after their
+        // method), a by-product of small plans
+        std::vector<int> perm = p.events[0].recs;
+        std::sort(perm.begin(), perm.end());
+        do {
+            bool legal = true;
+            for (std::size_t i = 0; i < perm.size() && legal; ++i)
+                if (p.recs[perm[i]].kind == RK_DEF)
+                    legal = std::find(perm.begin(), perm.begin() + i,
+                                      p.recs[perm[i]].meth) != perm.begin() + i;
+            if (legal)
+                p.orders.push_back(perm);
+        } while (std::next_permutation(perm.begin(), perm.end()));
+        k = 0;
+    }
     for (int i = 0; i < k; ++i)
         p.orders.push_back(g.order(p.events[0].recs));
     if (p.events[0].recs.size() >= 2) {
